@@ -25,6 +25,8 @@ PATTERN_NAMES = [
 # dot-files the shipped pattern ignores: under the UMN handler they must not be read as link files either
 IGNORED_DOTFILES = [".names~", ".Links~", ".cache.old", ".cachefile", ".forward", ".message", ".hushlogin", ".kermrc", ".notar", ".where"]
 PLAIN_NAMES = ["alpha.txt", "Beta.txt", "gamma", "delta.html", "epsilon.html", "zeta.gif", "a", "A", "b c.txt",
+               # names at and just below the file system's limit (a probe for '<name>.abstract' is longer than any name may be)
+               "n" * 246, "m" * 247 + ".txt", "k" * 255, "j" * 250 + ".html",
                # the same visible text in composed and decomposed form, and compatibility characters: different names
                "cafe\u0301.txt", "A\u030angstro\u0308m", "\u212bngstr\u00f6m", "\ufb01le.txt", "file.txt", "\uff21.txt",
                "café.txt", "10", "9", "z.txt", "Z.txt", "_under", "-dash"]
@@ -142,7 +144,9 @@ def run_dir(chk: Check, sc: Scratch, idx: int, handler_name: str, handlers: str,
     n = rng.choice([0, 1, 2, 3, 4, 5, 5, 6, 8, 10, 12])
     sub, kinds = gen_dir(rng, n, allow_gophermap="gophermap.Buck" not in handlers_text)
     hidden_meta = hide_by_metadata(rng, sub, kinds) if umn and rng.random() < 0.5 else set()
-    depth = rng.choice([b"", b"d", b"d/e"])
+    # (the last two: directories whose own path completes an unanchored alternative of the shipped pattern --
+    # '\.ask', '/\.cache' -- so every child selector matches it: such a directory lists nothing)
+    depth = rng.choice([b"", b"d", b"d/e", b"d", b"d/e", b"forms.asked/sub", b"x/.cache-2019"])
     patt0 = driver.make_config("/").get("handlers.dir.DirHandler", "ignorepatt")
     if umn and rng.random() < 0.4:
         # metadata files that are symbolic links to regular files kept elsewhere in the site: same effect
@@ -152,7 +156,7 @@ def run_dir(chk: Check, sc: Scratch, idx: int, handler_name: str, handlers: str,
             base = nm.rsplit(b"/", 1)[-1]
             if node["kind"] == "file" and (nm in (b".names", b".Links", b".links2", b".zlinks") or nm.startswith(b".cap/")) \
                     and rng.random() < 0.7:
-                store = b"zz-meta/" + nm.replace(b"/", b"_").lstrip(b".")
+                store = b"zz-meta/m%d" % moved
                 sub.file(store, node["data"])
                 del sub.nodes[nm]
                 sub.symlink(nm, (b"../" if b"/" in nm else b"") + store)
